@@ -41,7 +41,7 @@ func (c01) Decode(raw json.RawMessage) (any, error) {
 	return &s, err
 }
 
-var lvlNoMax = []string{"NONE", "VERBOSE", "TRACE", "DEBUG", "INFO", "NOTICE", "WARN", "AUDIT", "ERROR", "PANIC", "CRIT", "FATAL", "TOP"}
+var lvlNoMax = []string{"NONE", "VERBOSE", "TRACE", "DEBUG", "INFO", "NOTICE", "WARN", "AUDIT", "ERROR", "PANIC", "CRIT", "FATAL", "TOP", "ALL", "NOTE", "REVIEW"}
 
 func randCase(rt *rapid.T, s string) string {
 	switch rapid.IntRange(0, 2).Draw(rt, "case") {
@@ -81,6 +81,14 @@ func (c01) Gen(rt *rapid.T, thorough bool) any {
 			nr := rapid.IntRange(1, 4).Draw(rt, "refs")
 			for j := 0; j < nr; j++ {
 				name := fmt.Sprintf("a%dr%d", i, j)
+				if nr > 1 && rapid.IntRange(0, 5).Draw(rt, "discard_ref") == 0 {
+					// a reference to a Discard appender: nothing to observe there, but it takes part
+					// in the chaining of upper bounds and sits between the other references
+					name = fmt.Sprintf("d%dr%d", i, j)
+					s.Sys.Apps = append(s.Sys.Apps, AppSpec{Name: name, Type: "Discard"})
+					lg.Refs = append(lg.Refs, RefSpec{Ref: name, Level: genLevelRange(rt)})
+					continue
+				}
 				s.Sys.Apps = append(s.Sys.Apps, AppSpec{Name: name, Type: "Rec"})
 				lg.Refs = append(lg.Refs, RefSpec{Ref: name, Level: genLevelRange(rt)})
 			}
@@ -211,6 +219,9 @@ func (c01) Run(x *Exec, scn any) {
 		case "Logger", "AsyncLogger":
 			rr := modelRefRanges(lg.Refs)
 			for j, r := range lg.Refs {
+				if strings.HasPrefix(r.Ref, "d") {
+					continue // Discard appender
+				}
 				got, lvl := map[string]int{}, map[string]string{}
 				for _, it := range getRec(r.Ref).snapshot() {
 					id, _ := itemID(it)
